@@ -149,9 +149,14 @@ func (g *c08gen) leafNodes() []gen.Node {
 			// another template rendered right here, which captures on its own account: its captures must
 			// neither swallow nor leak into whatever capture is open at this point
 			g.seq++
-			if r.Intn(2) == 0 {
+			switch k := r.Intn(3); {
+			case k == 0:
 				out = append(out, &gen.NInclude{Tpl: str("cinc")})
-			} else {
+			case k == 1:
+				// ... rendered by a callback that uses its context: a re-entrant Execute on the same environment
+				// into the callback's own buffer; what comes back is a value printed where the call stands
+				out = append(out, pr(&gen.ECall{Fn: "render", Args: []gen.Expr{str("cinc")}}))
+			default:
 				ob := &gen.NBlock{Name: "eb", Body: []gen.Node{tx(g.mark()), &gen.NSetCap{Name: "oc", Body: []gen.Node{tx(g.mark())}}, tx("<"), pr(nm("oc")), tx(">")}}
 				out = append(out, &gen.NEmbed{Tpl: str("cemb"), Blocks: []*gen.NBlock{ob}})
 			}
